@@ -1,10 +1,15 @@
 (* C15 — Map-level processing of hit objects: order, combos, velocity,
-   sample defaults.  Statements only; proofs in Proofs/MapLevelFacts.v and
-   Proofs/MapLevelConcrete.v.  Everything holds for ANY curve-distance
+   sample defaults, shift invariance.  Statements only; proofs in
+   Proofs/MapLevelFacts.v and Proofs/MapLevelConcrete.v (T15a-c) and in
+   Proofs/ShiftFloat.v, Proofs/ShiftControlPoints.v, Proofs/ShiftMapLevel.v,
+   Proofs/ShiftExamples.v (T15d).  Everything holds for ANY curve-distance
    function [dist_of] (the slider-curve model supplies the real one). *)
 From RM Require Import Model.MapLevel Proofs.MapLevelFacts Proofs.MapLevelConcrete.
+From RM Require Import Model.Num Proofs.ControlPointsFacts Proofs.DecimalRounding Proofs.FloatGrammar.
+From RM Require Import Proofs.ShiftFloat Proofs.ShiftControlPoints Proofs.ShiftMapLevel Proofs.ShiftExamples.
 From RM Require Import Gen.Generated.
-From Coq Require Import Sorting.Sorted Sorting.Permutation.
+From Coq Require Import Sorting.Sorted Sorting.Permutation Reals Lra.
+From Flocq Require Import Raux.
 Open Scope Z_scope.
 
 (* ---------- T15a: order ---------- *)
@@ -156,7 +161,258 @@ Example C15_shift_refuted_fractional :
   D.lt (D.add (dec2 706) f64_5) (dec2 1206) = true.       (* 7.06 + 5 <  12.06: point missed *)
 Proof. vm_compute. split; reflexivity. Qed.
 
-(* For integer times T15d (shift invariance) is NOT proved here: see DESIGN.md C15 — the
-   statement "shifting every time by k commutes with decoding" needs
-   parse(t + k) = parse(t) + k and exactness of every float comparison against
-   shifted times; the check's oracle tests it on integer times and shifts. *)
+(* ---------- T15d for WHOLE-MILLISECOND times ---------- *)
+
+(* Everything below is about times that are whole numbers of milliseconds,
+   [D.of_Z n], with |n| and |n + k| below 2^52 ([in_range k n]; [whole_time k t]
+   says t is such a value).  The shift of a time is the float addition
+   [tshift k t = t + k]; for whole times it is exact, and it is what decoding the
+   shifted text yields (parse side, below). *)
+
+(* -- float level -- *)
+
+Theorem C15_whole_time_shifts_exactly :
+  forall k n, in_range k n -> tshift k (D.of_Z n) = D.of_Z (n + k).
+Proof. exact tshift_ofZ. Qed.
+Print Assumptions C15_whole_time_shifts_exactly.
+
+(* every comparison the decoder makes between two times: <, <=, ==, total_cmp *)
+Theorem C15_comparisons_shift_invariant :
+  forall k a b, in_range k a -> in_range k b ->
+  D.lt (tshift k (D.of_Z a)) (tshift k (D.of_Z b)) = D.lt (D.of_Z a) (D.of_Z b) /\
+  D.le (tshift k (D.of_Z a)) (tshift k (D.of_Z b)) = D.le (D.of_Z a) (D.of_Z b) /\
+  D.eq (tshift k (D.of_Z a)) (tshift k (D.of_Z b)) = D.eq (D.of_Z a) (D.of_Z b) /\
+  D.total_cmp (tshift k (D.of_Z a)) (tshift k (D.of_Z b)) = D.total_cmp (D.of_Z a) (D.of_Z b).
+Proof.
+  intros k a b Ha Hb.
+  exact (conj (shift_lt k a b Ha Hb) (conj (shift_le k a b Ha Hb)
+        (conj (shift_eq k a b Ha Hb) (shift_total_cmp k a b Ha Hb)))).
+Qed.
+Print Assumptions C15_comparisons_shift_invariant.
+
+(* and they are the comparisons of the integers *)
+Theorem C15_whole_times_compare_as_integers :
+  forall a b, Z.abs a < 2 ^ 53 -> Z.abs b < 2 ^ 53 ->
+  D.lt (D.of_Z a) (D.of_Z b) = (a <? b) /\ D.le (D.of_Z a) (D.of_Z b) = (a <=? b) /\
+  D.eq (D.of_Z a) (D.of_Z b) = (a =? b) /\ D.total_cmp (D.of_Z a) (D.of_Z b) = (a ?= b).
+Proof.
+  intros a b Ha Hb.
+  exact (conj (lt_ofZ a b Ha Hb) (conj (le_ofZ a b Ha Hb) (conj (eq_ofZ a b Ha Hb) (total_cmp_ofZ a b Ha Hb)))).
+Qed.
+Print Assumptions C15_whole_times_compare_as_integers.
+
+(* the + 5 ms of the sample-point look-up commutes with the shift; the 5 is the pinned leniency *)
+Theorem C15_leniency_commutes_with_shift :
+  forall k n, in_range k n ->
+  D.add (tshift k (D.of_Z n)) f64_5 = tshift k (D.add (D.of_Z n) f64_5).
+Proof. exact shift_add5. Qed.
+Print Assumptions C15_leniency_commutes_with_shift.
+
+(* end - start (spinner and hold durations) does not see the shift *)
+Theorem C15_durations_shift_invariant :
+  forall k a b, in_range k a -> in_range k b ->
+  D.sub (tshift k (D.of_Z a)) (tshift k (D.of_Z b)) = D.sub (D.of_Z a) (D.of_Z b).
+Proof. exact shift_sub. Qed.
+Print Assumptions C15_durations_shift_invariant.
+
+(* -- parse side: a text ParseNumber accepts and that denotes the whole number n
+      (any spelling: "1500", "+1500", "1500.0", "15e2"; not "-0") is read as
+      exactly D.of_Z n; hence parse(t + k) = parse(t) + k -- *)
+Theorem C15_whole_literal_parses_exactly :
+  forall s x n, Z.abs n < 2 ^ 53 -> pn_f64 s = Some x -> denotes_whole s n -> x = D.of_Z n.
+Proof. exact pn_f64_whole. Qed.
+Print Assumptions C15_whole_literal_parses_exactly.
+
+Theorem C15_parse_commutes_with_shift :
+  forall k n s s' x x', in_range k n ->
+  pn_f64 s = Some x -> denotes_whole s n ->
+  pn_f64 s' = Some x' -> denotes_whole s' (n + k) ->
+  x = D.of_Z n /\ x' = tshift k x.
+Proof. exact pn_f64_shift. Qed.
+Print Assumptions C15_parse_commutes_with_shift.
+
+Example C15_denotes_whole_nonvacuous :
+  denotes_whole (lit "1500") 1500 /\ denotes_whole (lit " -15e2") (-1500) /\ denotes_whole (lit "7.0") 7.
+Proof.
+  repeat split.
+  - exists false, 1500, 0. split; [apply parse_fnum_decimal_iff; vm_compute; reflexivity|].
+    split; [unfold dec_value; cbn; lra|lia].
+  - exists true, 15, 2. split; [apply parse_fnum_decimal_iff; vm_compute; reflexivity|].
+    split; [unfold dec_value; cbn; lra|lia].
+  - exists false, 70, (-1). split; [apply parse_fnum_decimal_iff; vm_compute; reflexivity|].
+    split; [unfold dec_value; cbn; lra|lia].
+Qed.
+
+(* -- control points: the four look-ups at a whole time, and ControlPoints::add -- *)
+
+Theorem C15_lookups_commute_with_shift :
+  forall k c b, cps_whole k c -> Z.abs b < 2 ^ 53 -> Z.abs (b + k) < 2 ^ 53 ->
+  timing_point_at (shift_cps k c) (D.of_Z (b + k)) = omap (shift_tp k) (timing_point_at c (D.of_Z b)) /\
+  difficulty_point_at (shift_cps k c) (D.of_Z (b + k)) =
+    out_map (omap (shift_dp k)) (difficulty_point_at c (D.of_Z b)) /\
+  effect_point_at (shift_cps k c) (D.of_Z (b + k)) =
+    out_map (omap (shift_ep k)) (effect_point_at c (D.of_Z b)) /\
+  sample_point_at (shift_cps k c) (D.of_Z (b + k)) = omap (shift_sp k) (sample_point_at c (D.of_Z b)).
+Proof.
+  intros k c b Hc H1 H2.
+  exact (conj (timing_point_at_shift k c b Hc H1 H2) (conj (difficulty_point_at_shift k c b Hc H1 H2)
+        (conj (effect_point_at_shift k c b Hc H1 H2) (sample_point_at_shift k c b Hc H1 H2)))).
+Qed.
+Print Assumptions C15_lookups_commute_with_shift.
+
+(* decoding the shifted timing lines builds the shifted collection: any add
+   history with whole times, from any whole collection *)
+Theorem C15_add_commutes_with_shift :
+  forall k ops c, cps_whole k c -> Forall (fun o => whole_time k (op_time o)) ops ->
+  cp_run (shift_cps k c) (map (shift_op k) ops) = out_map (shift_cps k) (cp_run c ops).
+Proof. exact cp_run_shift. Qed.
+Print Assumptions C15_add_commutes_with_shift.
+
+(* -- map level -- *)
+
+(* [shift_obj k h] is h with its start time shifted and NOTHING else changed:
+   same kind (position, new-combo flag, combo offset, path, repeat count,
+   velocity, spinner / hold duration, node samples) and same samples (name,
+   bank, volume, custom index, ...).  The theorems below say
+       process(shifted input) = map shift_obj (process(input)),
+   so order, combos, velocities, durations and every sample default are
+   unchanged; only times move.  Spelled out: *)
+Theorem C15_shift_changes_only_times :
+  forall k out,
+  Forall2 (fun h h' => h_start h' = tshift k (h_start h) /\ h_kind h' = h_kind h /\ h_samples h' = h_samples h)
+          out (map (shift_obj k) out).
+Proof. exact shift_objs_only_time. Qed.
+Print Assumptions C15_shift_changes_only_times.
+
+(* T15d for circles, spinners and holds: whole start times, whole durations
+   (start + duration in range), whole break ends and control-point times.
+   Full for this class: no further side condition, any curve function, any
+   break order, any mode. *)
+Theorem C15_shift_invariance_integer_times :
+  forall dist_of k c breaks sm mode objs,
+  cps_whole k c -> breaks_whole k breaks -> Forall (whole_obj k) objs ->
+  finish_hit_objects dist_of (shift_cps k c) (map (shift_break k) breaks) sm mode (map (shift_obj k) objs) =
+  out_map (map (shift_obj k)) (finish_hit_objects dist_of c breaks sm mode objs).
+Proof. exact finish_shift_whole. Qed.
+Print Assumptions C15_shift_invariance_integer_times.
+
+(* T15d with sliders, CONDITIONAL.  A slider's duration spans * dist / velocity
+   is in general not a whole number; its sample points are looked up at
+   fl(fl(start + o) + 5), o the duration resp. the node offset i * duration /
+   spans ([slider_lookups]).  [obj_ok] demands for every such o: o finite,
+   |o| <= 2^1000, and for every sample-point time T the exact real number
+   start + o + 5 is NOT in the window (T - 2^-g, T) ([clear_of]; also T, T + k
+   small enough that T - 2^-g is a binary64 number: (|T| + 6) * 2^g < 2^53).  g is
+   free (0 .. 1074); g = 20 covers |T| < 2^33 - 6 with a window of 2^-20 ms.
+   Full statement (false, see C15_slider_shift_refuted): the same without the
+   window condition. *)
+Theorem C15_shift_invariance_sliders_partial :
+  forall dist_of g, 0 <= g <= 1074 ->
+  forall k c breaks sm mode objs,
+  cps_whole k c -> breaks_whole k breaks -> Forall (obj_ok dist_of g k c sm mode) objs ->
+  finish_hit_objects dist_of (shift_cps k c) (map (shift_break k) breaks) sm mode (map (shift_obj k) objs) =
+  out_map (map (shift_obj k)) (finish_hit_objects dist_of c breaks sm mode objs).
+Proof. exact finish_shift. Qed.
+Print Assumptions C15_shift_invariance_sliders_partial.
+
+(* the float fact behind it: against a whole time T, the look-up only asks
+   whether T is after fl(fl(s + o) + 5), and outside the window the exact real
+   number s + o + 5 answers that *)
+Theorem C15_slider_lookup_decided_by_exact_sum :
+  forall g, 0 <= g <= 1074 ->
+  forall s o T, Z.abs s < 2 ^ 53 -> off_ok o -> fits g T -> clear_of g s o T ->
+  is_gt (D.total_cmp (D.of_Z T) (look s o)) = negb (Rle_bool (IZR T) (IZR s + B2R o + 5)).
+Proof. exact look_cmp. Qed.
+Print Assumptions C15_slider_lookup_decided_by_exact_sum.
+
+(* REFUTED without the window condition (finding D29), on whole times:
+   SliderMultiplier 1.4, beat length 500, slider of length 336 with one repeat
+   at 1000 (duration fl(672 / 0.28) = 2399.9999999999995), sample point
+   (volume 30) at 3405.  Unshifted the look-up time is 3404.9999999999995 and
+   the slider keeps volume 100; shifted by 1000 ms the look-up time is exactly
+   4405 and the slider takes volume 30. *)
+Theorem C15_slider_shift_refuted :
+  exists dist_of k c sm mode h,
+    cps_whole k c /\ whole_time k (h_start h) /\ (exists s, h_kind h = KSlider s) /\
+    finish_hit_objects dist_of (shift_cps k c) (map (shift_break k) []) sm mode (map (shift_obj k) [h]) <>
+    out_map (map (shift_obj k)) (finish_hit_objects dist_of c [] sm mode [h]).
+Proof. exact slider_shift_witness. Qed.
+Print Assumptions C15_slider_shift_refuted.
+
+Example C15_slider_shift_refuted_volumes :
+  volumes (finish_hit_objects w_dist w_cps [] w_sm 0 [w_slider]) = [100] /\
+  volumes (finish_hit_objects w_dist (shift_cps 1000 w_cps) [] w_sm 0 [shift_obj 1000 w_slider]) = [30].
+Proof. exact slider_shift_volumes. Qed.
+
+Example C15_slider_shift_refuted_lookup_times :
+  D.bits (look 1000 w_duration) = 4659706089258876927 /\         (* 3404.9999999999995 *)
+  D.bits (D.of_Z 3405)          = 4659706089258876928 /\
+  D.bits (look 2000 w_duration) = 4661565363421446144 /\         (* 4405 *)
+  D.bits (D.of_Z 4405)          = 4661565363421446144.
+Proof. exact slider_shift_lookups. Qed.
+
+(* non-vacuity of the conditional theorem: the same slider with the sample
+   point at 3500 satisfies [obj_ok] (g = 20, k = 1000) *)
+Example C15_slider_condition_nonvacuous :
+  obj_ok w_dist 20 1000 w_cps_clear w_sm 0 w_slider /\ cps_whole 1000 w_cps_clear /\
+  volumes (finish_hit_objects w_dist w_cps_clear [] w_sm 0 [w_slider]) = [100].
+Proof. exact (conj w_slider_ok (conj w_cps_clear_whole w_clear_volumes)). Qed.
+
+(* non-vacuity of the unconditional theorem: spinner, circle and hold out of
+   order with a tie, a break, two sample points; shift by -1000000 *)
+Definition sv_sample : HitSampleInfo := hs_new (NDefault 0) None 0 0.
+Definition sv_objs : list HitObject :=
+  [ mkHObj (D.of_Z 20) (KSpinner (mkSpinner (mkPos S.zero S.zero) (D.of_Z 100) false)) [sv_sample];
+    mkHObj (D.of_Z 10) (KCircle (mkCircle (mkPos S.zero S.zero) false 0)) [sv_sample];
+    mkHObj (D.of_Z 20) (KHold (mkHold S.zero (D.of_Z 50))) [sv_sample] ].
+Definition sv_cps : ControlPoints :=
+  mkCP [mkTP (D.of_Z 0) (D.of_Z 500) false 4] [] []
+       [mkSP (D.of_Z 0) 1 60 0; mkSP (D.of_Z 75) 2 45 0; mkSP (D.of_Z 125) 3 30 0].
+Example C15_shift_invariance_nonvacuous :
+  cps_whole (-1000000) sv_cps /\ breaks_whole (-1000000) [mkBreak (D.of_Z 0) (D.of_Z 15)] /\
+  Forall (whole_obj (-1000000)) sv_objs /\
+  volumes (finish_hit_objects ex_dist sv_cps [mkBreak (D.of_Z 0) (D.of_Z 15)] D.one 0 sv_objs) = [60; 30; 45].
+Proof.
+  split; [|split; [|split]].
+  - unfold cps_whole, sv_cps. cbn [cp_timing cp_difficulty cp_effect cp_sample].
+    repeat split; repeat constructor; eexists; (split; [reflexivity|unfold in_range; lia]).
+  - repeat constructor. eexists; (split; [reflexivity|unfold in_range; lia]).
+  - unfold sv_objs. repeat constructor.
+    + exists 20. split; [reflexivity|]. split; [unfold in_range; lia|]. cbn [h_kind sp_duration].
+      exists 100. split; [reflexivity|]. split; [lia|unfold in_range; lia].
+    + exists 10. split; [reflexivity|]. split; [unfold in_range; lia|exact I].
+    + exists 20. split; [reflexivity|]. split; [unfold in_range; lia|]. cbn [h_kind hd_duration].
+      exists 50. split; [reflexivity|]. split; [lia|unfold in_range; lia].
+  - vm_compute. reflexivity.
+Qed.
+
+(* -0.0 is NOT a whole time in the sense above (D.of_Z 0 is +0.0), and it does
+   break T15d: total_cmp puts -0.0 before +0.0, the shift maps both to k.  An
+   object at "0" followed by one at "-0" is reordered; after a shift by 7 both
+   are at 7 and keep their file order (relative of finding D8). *)
+Definition zcirc (t : F64) (tag : Z) : HitObject :=
+  mkHObj t (KCircle (mkCircle (mkPos S.zero S.zero) false tag)) [].
+Definition tags (r : outcome (list HitObject)) : list Z :=
+  match r with
+  | Done l => map (fun h => match h_kind h with KCircle c => ci_combo_offset c | _ => -1 end) l
+  | _ => []
+  end.
+Example C15_shift_refuted_negative_zero :
+  D.key (D.neg D.zero) < D.key (D.of_Z 0) /\
+  D.bits (tshift 7 (D.neg D.zero)) = D.bits (tshift 7 (D.of_Z 0)) /\
+  tags (finish_hit_objects ex_dist cp_empty [] D.one 0 [zcirc (D.of_Z 0) 1; zcirc (D.neg D.zero) 2]) = [2; 1] /\
+  tags (finish_hit_objects ex_dist cp_empty [] D.one 0
+          [shift_obj 7 (zcirc (D.of_Z 0) 1); shift_obj 7 (zcirc (D.neg D.zero) 2)]) = [1; 2].
+Proof. vm_compute. repeat split; reflexivity. Qed.
+
+(* Status of T15d.  PROVED for whole-millisecond times within +-2^52 (before
+   and after the shift): exact shift, all comparisons, the parse side, the four
+   look-ups, ControlPoints::add, and the whole map-level processing of circles,
+   spinners and holds (C15_shift_invariance_integer_times); for sliders under
+   the window condition (C15_shift_invariance_sliders_partial).  REFUTED: with
+   fractional times (D20, C15_shift_refuted_fractional); for sliders whose exact
+   end + 5 (or node time + 5) lies within rounding distance below a sample
+   point (D29, C15_slider_shift_refuted); with a time written "-0" (relative of
+   D8, C15_shift_refuted_negative_zero).  Not covered: non-finite slider
+   durations (NaN distance, D11) and |times| >= 2^52 (ParseNumber only accepts
+   |t| <= 2147483647). *)
